@@ -1,5 +1,6 @@
 mod codec;
 mod ctl;
+mod sys;
 mod j;
 mod util;
 mod vsign;
@@ -26,6 +27,7 @@ fn main() {
         ("replay", "C13") => { vsign::replay_graph(&a.rest[0], false); 0 }
         ("replay", "C12") => { vsign::replay_graph(&a.rest[0], true); 0 }
         ("replay", "C14") => { vsign::replay_bus_graph(&a.rest[0]); 0 }
+        ("record", "C08") => sys::record_c08(&a),
         ("record", "C09") => ctl::record_c09(&a),
         ("record", "C10") => ctl::record_c10(&a),
         ("record", "C11") => ctl::record_c11(&a),
